@@ -68,7 +68,7 @@ MIN_COUNTERS = {
               'file_spellings_judged': 100, 'file_spelling_Path': 40, 'file_spelling_fileobj': 20,
               'file_spelling_bytes': 40, 'autoload_offers_checked': 3, 'cli_aux_route_autoload': 3, 'cli_aux_route_explicit': 3,
               'crpix_special_values': 3000, 'crpix_equals_1_minus_factor': 400,
-              'crpix_equals_1_minus_factor_axis1': 150, 'crpix_equals_1_minus_factor_axis2': 150, 'bane_compressed_runs': 4, 'bane_products_judged': 8, 'bane_cli_runs': 2,
+              'crpix_equals_1_minus_factor_axis1': 150, 'crpix_equals_1_minus_factor_axis2': 150, 'bane_compressed_runs': 10, 'bane_products_judged': 20, 'bane_cli_runs': 5, 'bane_products_vs_returned_map': 20, 'bane_rectangular_grid_products_vs_returned_map': 12, 'bane_noncommensurate_grid_products_vs_returned_map': 8,
               'bane_pairs_through_load_globals': 2, 'tall_roundtrips': 60,
               'long_axis_gt_1024_factor_not_dividing_1024': 50, 'integer_pixel_roundtrips': 5000, 'integer_pixel_roundtrips_file': 300,
               'integer_linear_images_factor_not_power_of_2': 1500, 'cd_headers': 3000, 'cd_rotated': 1500, 'cd_skewed': 1500,
@@ -84,7 +84,9 @@ MIN_COUNTERS = {
                  'file_spellings_judged': 400, 'file_spelling_Path': 160, 'file_spelling_fileobj': 80,
                  'file_spelling_bytes': 160, 'autoload_offers_checked': 12, 'cli_aux_route_autoload': 12,
                  'cli_aux_route_explicit': 12, 'crpix_special_values': 9000, 'crpix_equals_1_minus_factor': 1200,
-                 'crpix_equals_1_minus_factor_axis1': 500, 'crpix_equals_1_minus_factor_axis2': 500, 'bane_compressed_runs': 16, 'bane_products_judged': 32, 'bane_cli_runs': 8,
+                 'crpix_equals_1_minus_factor_axis1': 500, 'crpix_equals_1_minus_factor_axis2': 500, 'bane_compressed_runs': 32, 'bane_products_judged': 64, 'bane_cli_runs': 16,
+                 'bane_products_vs_returned_map': 64, 'bane_rectangular_grid_products_vs_returned_map': 32,
+                 'bane_noncommensurate_grid_products_vs_returned_map': 20,
                  'bane_pairs_through_load_globals': 8, 'tall_roundtrips': 300,
                  'long_axis_gt_1024_factor_not_dividing_1024': 250, 'long_axis_gt_4096': 40},
 }
@@ -1062,7 +1064,7 @@ def sr6_case(o, rng, rows, cols, f, idx, tmp, variant):
         pass
 
 
-def bane_case(o, rng, rows, cols, f, idx, tmp, variant='api'):
+def bane_case(o, rng, rows, cols, f, idx, tmp, variant='api', grid=None):
     """the compress path as BANE drives it: two products (bkg, rms) made from ONE image header by
     BANE.filter_image(compressed=True) or the `BANE --compress` command line.  BOTH products are expanded
     (fits_tools.expand, load_image_band, and SR6 -x for the CLI variant) and their restored headers are judged against
@@ -1072,7 +1074,8 @@ def bane_case(o, rng, rows, cols, f, idx, tmp, variant='api'):
     from AegeanTools import BANE, fits_tools as ft
     from AegeanTools.source_finder import SourceFinder
     hdr, hinfo = header_for(idx, rows, cols, rng, f=f)
-    wit = {'rows': rows, 'cols': cols, 'factor': f, 'mode': 'BANE --compress (%s)' % variant, 'header': hinfo}
+    grid = tuple(int(g) for g in (grid or (f, f)))
+    wit = {'rows': rows, 'cols': cols, 'factor': f, 'grid': list(grid), 'mode': 'BANE --compress (%s)' % variant, 'header': hinfo}
     yy, xx = np.mgrid[0:rows, 0:cols]
     img = (rng.normal(0, 1, (rows, cols)) + 0.02 * yy - 0.01 * xx).astype(np.float32)
     p0 = os.path.join(tmp, 'b.fits')
@@ -1087,14 +1090,17 @@ def bane_case(o, rng, rows, cols, f, idx, tmp, variant='api'):
     level, handlers = root.level, list(root.handlers)
     try:
         if variant == 'api':
-            out = BANE.filter_image(im_name=p0, out_base=base, step_size=(f, f), box_size=(3 * f, 3 * f), cores=1,
+            out = BANE.filter_image(im_name=p0, out_base=base, step_size=grid, box_size=(3 * grid[0], 3 * grid[1]), cores=1,
                                     nslice=1, compressed=True)
             if out is None:
                 o.violate('returns_none', dict(wit, stage='BANE.filter_image'))
                 return
         else:
             from AegeanTools.CLI import BANE as cli
-            rc = cli.main([p0, '--out', base, '--grid', str(f), str(f), '--box', str(3 * f), str(3 * f),
+            # the maps this very request returns (same arguments through the API, nothing written)
+            out = BANE.filter_image(im_name=p0, out_base=None, step_size=grid, box_size=(3 * grid[0], 3 * grid[1]), cores=1,
+                                    nslice=1, compressed=True)
+            rc = cli.main([p0, '--out', base, '--grid', str(grid[0]), str(grid[1]), '--box', str(3 * grid[0]), str(3 * grid[1]),
                            '--cores', '1', '--stripes', '1', '--compress'])
             o.count('bane_cli_runs')
             if rc != 0:
@@ -1174,12 +1180,27 @@ def bane_case(o, rng, rows, cols, f, idx, tmp, variant='api'):
                 for h_ in list(root.handlers):
                     if h_ not in handlers:
                         root.removeHandler(h_)
-        # is the BANE map itself bilinear between the decimation nodes?  (informational; then `linear` applies)
-        K, L = (rows - 1) // f, (cols - 1) // f
+        # BANE maps are linear between the nodes of the grid they were computed on, and the file is decimated on that
+        # grid: the expanded file must be the map the same call returned on every complete cell (statement: "exact on all
+        # complete grid cells for images that are linear between nodes (as BANE maps are)"), 4 float32 ulp of the node range
+        fc = int(comp_hdr['BN_CFAC'])
+        K, L = (rows - 1) // fc, (cols - 1) // fc
         if full is not None and full.shape == (rows, cols) and K >= 1 and L >= 1 and np.all(np.isfinite(full)):
-            M = float(np.max(np.abs(full[::f, ::f])))
-            o.worst('info_bane_map_vs_expanded_rel_node_range',
-                    float(np.max(np.abs(d[:K * f + 1, :L * f + 1] - full[:K * f + 1, :L * f + 1]))) / max(M, 1e-30))
+            M = float(np.max(np.abs(full[::fc, ::fc])))
+            diff = np.abs(d[:K * fc + 1, :L * fc + 1].astype(np.float64) - full[:K * fc + 1, :L * fc + 1])
+            err = float(np.max(diff)) / (EPS32 * max(M, 1e-30))
+            o.worst('bane_file_vs_returned_map_ulp32_of_node_range', err)
+            o.count('bane_products_vs_returned_map')
+            if grid[0] != grid[1]:
+                o.count('bane_rectangular_grid_products_vs_returned_map')
+                if max(grid) % min(grid):
+                    o.count('bane_noncommensurate_grid_products_vs_returned_map')
+            if not err <= LIN_TOL_ULP:
+                wp = np.unravel_index(int(np.argmax(diff)), diff.shape)
+                o.violate('linear', dict(w, what='expanded BANE file vs the map the same call returned, complete cells',
+                                         err_ulp=err, rel_to_node_range=float(np.max(diff)) / max(M, 1e-30),
+                                         pixel=[int(wp[0]), int(wp[1])], file_value=float(d[wp]), returned_map=float(full[wp]),
+                                         compression_factor=fc))
     # (d) Aegean accepts both products wherever it accepts the uncompressed maps
     if len(expanded) == 2:
         plain = {}
@@ -1229,6 +1250,11 @@ def cases(seed, tier):
     # BANE --compress: both tiers, through the API and through the command line
     for k in range(4 if tier == 'quick' else 16):
         out.append({'kind': 'bane', 'variant': ('api', 'cli')[k % 2], 'seed': [seed, 'bane', k]})
+    # rectangular grids (BANE then computes and compresses on one common grid): non-commensurate and commensurate steps
+    grids = [(8, 12), (10, 6), (12, 10), (6, 10), (8, 10), (4, 8), (12, 8), (10, 4)]
+    for k in range(6 if tier == 'quick' else 16):
+        out.append({'kind': 'bane', 'variant': ('api', 'cli')[k % 2], 'grid': list(grids[k % len(grids)]),
+                    'seed': [seed, 'bane-rect', k]})
     # maps with blanked regions (as BANE maps of masked images have)
     for k in range(6 if tier == 'quick' else 30):
         out.append({'kind': 'blank', 'n': 36, 'offset': k, 'seed': [seed, 'blank', k]})
@@ -1315,8 +1341,11 @@ def run(case):
             rows = int(rng.integers(60, 140))
             cols = int(rng.integers(60, 140))
             f = int(rng.choice([4, 5, 7, 8, 10]))
-            bane_case(o, rng, rows, cols, f, int(rng.integers(0, 10000)), tmp, variant=case.get('variant', 'api'))
-            o.sample = {'rows': rows, 'cols': cols, 'factor': f, 'variant': case.get('variant', 'api')}
+            grid = case.get('grid')
+            if grid:
+                f = int(min(grid))
+            bane_case(o, rng, rows, cols, f, int(rng.integers(0, 10000)), tmp, variant=case.get('variant', 'api'), grid=grid)
+            o.sample = {'rows': rows, 'cols': cols, 'factor': f, 'grid': grid, 'variant': case.get('variant', 'api')}
         elif kind == 'blank':
             for k in range(case['n']):
                 f = int(rng.choice([2, 3, 4, 5, 7, 8, 10]))
